@@ -27,6 +27,7 @@ type signalUser struct {
 type signalHandler struct {
 	signals      []signalUser
 	signalsMutex sync.RWMutex
+	terminated   bool // OnTerminate was called: no more users
 	serviceID    uint32
 	objectID     uint32
 	tracer       func(*net.Message)
@@ -72,6 +73,10 @@ func (o *signalHandler) addSignalUser(userID uint64, signalID, messageID uint32,
 
 	// refuse a duplicated user before anything needs to be undone.
 	o.signalsMutex.Lock()
+	if o.terminated {
+		o.signalsMutex.Unlock()
+		return fmt.Errorf("object terminated")
+	}
 	for _, user := range o.signals {
 		if user.userID == userID {
 			vhook.Emit("signal", o, "add_dup", "user", userID, "signal", signalID, "ep", vhook.ID(e))
@@ -94,6 +99,12 @@ func (o *signalHandler) addSignalUser(userID uint64, signalID, messageID uint32,
 	vhook.Gate("signal.add.made", "user", userID, "signal", signalID)
 
 	o.signalsMutex.Lock()
+	if o.terminated {
+		// terminated meanwhile: nobody would tell this user.
+		o.signalsMutex.Unlock()
+		e.RemoveHandler(newUser.contextID)
+		return fmt.Errorf("object terminated")
+	}
 	o.signals = append(o.signals, newUser)
 	vhook.Emit("signal", o, "add", "user", userID, "signal", signalID, "msg", messageID, "ep", vhook.ID(e), "n", len(o.signals))
 	o.signalsMutex.Unlock()
@@ -278,6 +289,7 @@ func (o *signalHandler) OnTerminate() {
 	o.signalsMutex.Lock()
 	signals := o.signals
 	o.signals = []signalUser{}
+	o.terminated = true
 	vhook.Emit("signal", o, "terminate", "n", len(signals))
 	o.signalsMutex.Unlock()
 	for _, user := range signals {
